@@ -48,8 +48,74 @@ let iapprox_s = function IExact v -> hx v ^ " Exact" | IInexact (v, r) -> hx v ^
 
 (* a base-2 float s * 2^e with |e| beyond every format: the value (an overflow, or less than a quarter of the smallest
    subnormal) converts like s * 2^(+-6000), which the specification and the models can evaluate *)
+let nth_z l i = List.nth l i
 let clamp_exp s e =
   if Zar.gt (Zar.abs e) (zi 6000) && Zar.lt (blen (Zar.abs s)) (zi 3000) then Zar.mul (zi (Zar.sign e)) (zi 6000) else e
+
+(* ---------------------------------------------------------------------------------------------
+   The ln/exp route of convert_base (bases that are not powers of one another, |exponent| > 38) as it is: C08's model
+   Float/LargeExpAsis.v over the C11 as-is models of ln / exp, composed with and_then(into_f32/f64_internal) in
+   Conv/ConvLargeRoute.v.  The f32 estimate layer is instantiated exactly as in oracle/driver_c08.ml / driver_c11.ml: an
+   f32 is an OCaml float holding a single-precision value (+ - * / in double, rounded to single; log2 = double log2
+   rounded to single: libm's log2f differs by one ulp on rare arguments - such a case shows as asis=diff). *)
+let r32 x = Int32.float_of_bits (Int32.bits_of_float x)
+let f_of_z (v : Zar.t) : Stdlib.Float.t =
+  if Zar.numbits v <= 53 then r32 (Zar.to_float v)
+  else begin
+    let av = Zar.abs v in
+    let sh = Zar.numbits av - 30 in
+    let top = Zar.shift_right av sh in
+    let top = if Zar.equal (Zar.shift_left top sh) av then top else Zar.logor top Zar.one in
+    let r = r32 (ldexp (Zar.to_float top) sh) in
+    if Zar.sign v < 0 then -. r else r
+  end
+let two64 = Zar.shift_left Zar.one 64
+let two63 = Zar.shift_left Zar.one 63
+let f_to_usize x =
+  if Stdlib.Float.is_nan x || x <= 0.0 then Zar.zero
+  else if x >= 18446744073709551616.0 then Zar.pred two64 else Zar.of_float (Stdlib.Float.trunc x)
+let f_to_isize x =
+  if Stdlib.Float.is_nan x then Zar.zero
+  else if x >= 9223372036854775808.0 then Zar.pred two63
+  else if x <= -9223372036854775808.0 then Zar.neg two63 else Zar.of_float (Stdlib.Float.trunc x)
+let next_up f =
+  let bits = Int32.bits_of_float f in
+  let abs = Int32.logand bits 0x7fff_ffffl in
+  Int32.float_of_bits (if abs = 0l then 1l else if bits = abs then Int32.add bits 1l else Int32.sub bits 1l)
+let next_down f =
+  let bits = Int32.bits_of_float f in
+  let abs = Int32.logand bits 0x7fff_ffffl in
+  Int32.float_of_bits (if abs = 0l then 0x8000_0001l else if bits = abs then Int32.sub bits 1l else Int32.add bits 1l)
+let f32o : Stdlib.Float.t f32ops =
+  { f_of_Z = f_of_z; f_log2 = (fun x -> r32 (Stdlib.Float.log2 x));
+    f_add = (fun a b -> r32 (a +. b)); f_sub = (fun a b -> r32 (a -. b));
+    f_mul = (fun a b -> r32 (a *. b)); f_div = (fun a b -> r32 (a /. b));
+    f_neg = (fun a -> -. a); f_ltb = (fun a b -> a < b);
+    f_to_usize = f_to_usize; f_to_isize = f_to_isize; f_next_up = next_up; f_next_down = next_down;
+    f_log10_2 = r32 0.301029995663981195213738894724493027; f_epsilon = ldexp 1.0 (-23); f_neg_inf = neg_infinity }
+let rec nat_of_int n acc = if n <= 0 then acc else nat_of_int (n - 1) (S acc)
+let large_fuel = nat_of_int 200000 O
+exception Budget
+let with_budget secs (f : unit -> 'a) : 'a option =
+  let old = Sys.signal Sys.sigalrm (Sys.Signal_handle (fun _ -> raise Budget)) in
+  let stop () =
+    ignore (Unix.setitimer Unix.ITIMER_REAL { Unix.it_interval = 0.0; it_value = 0.0 });
+    Sys.set_signal Sys.sigalrm old in
+  ignore (Unix.setitimer Unix.ITIMER_REAL { Unix.it_interval = 0.0; it_value = secs });
+  match f () with
+  | v -> stop (); Some v
+  | exception Budget -> stop (); None
+  | exception Stack_overflow -> stop (); None
+  | exception e -> stop (); raise e
+let large_spent = ref 0.0
+let large_asis p b m s e : frounded result option =
+  if !large_spent > 120.0 then None
+  else begin
+    let t0 = Unix.gettimeofday () in
+    let r = with_budget 2.0 (fun () -> fbig_to_float_large f32o (zi 64) large_fuel p b m s e) in
+    large_spent := !large_spent +. (Unix.gettimeofday () -. t0);
+    r
+  end
 
 let judge op a got =
   let arg i = List.nth a i in
@@ -217,12 +283,17 @@ let judge op a got =
         let (bits, c) = ieee_round f m n d in
         let wflag = flag_s (flag_of_error (Zar.of_int (Zar.sign n)) c) in
         let want = join ["ok"; hx bits; wflag] in
-        let asis = match fbig_to_float p b m s e with
-          | Ok fr -> fr_s fr
-          | Panic _ -> "panic Undocumented:assertionfailed:self.significand.bit_len()<=" ^ (if arg 0 = "f32" then "24" else "53")
-          | Err _ -> "panic Undocumented:assertionfailed:lhs.digits()<=self.precision+rhs.digits()" 
-          | _ -> "model-undefined" in
-        let fid = same_asis asis got in
+        let pow2b = Zar.equal b (Zar.shift_left one (Zar.log2 b)) in
+        let large = (not pow2b) && Zar.gt (Zar.abs e) (nth_z convert_small_exp_gen 0) && Zar.sign s <> 0 in
+        let model = if large then large_asis p b m s e else Some (fbig_to_float p b m s e) in
+        let asis = match model with
+          | Some (Ok fr) -> fr_s fr
+          | Some (Panic _) -> "panic Undocumented:assertionfailed:self.significand.bit_len()<=" ^ (if arg 0 = "f32" then "24" else "53")
+          | Some (Err _) -> "panic Undocumented:assertionfailed:lhs.digits()<=self.precision+rhs.digits()" 
+          | Some _ -> "model-undefined"
+          | None -> "model-not-evaluated" in
+        let fid = if model = None then "" else same_asis asis got in
+        let fid = if large then fid ^ " route=large" else fid in
         let fid =
           if Zar.equal b (zi 2) && Zar.sign s <> 0 then begin
             let (s0, e0) = normalize b s e in
@@ -243,7 +314,8 @@ let judge op a got =
           let pow2 = Zar.equal b (Zar.shift_left one (Zar.log2 b)) in
           ignore pow2;
           (* base 2 rounds once since the fourth round; the other bases still round to 24/53 bits in convert_base first *)
-          if below_normal && not (Zar.equal b (zi 2)) then known "fbig_to_float_subnormal" want
+          if large then known "fbig_to_float_large_route" want
+          else if below_normal && not (Zar.equal b (zi 2)) then known "fbig_to_float_subnormal" want
           else fail want
         end else fail want
       end
